@@ -1,5 +1,22 @@
 // c14: denied fields never reach the client and denied mutations never reach a subgraph --
-// the planner / collector / loader part on the federation lab (see tools/props/c14.py).
+// the planner / collector / loader part on the federation lab (see tools/props/c14.py; the
+// renderer part runs through harness/cmd/c02 -auth 1).
+//
+//	c14 fixture [-name iface|mut] [-p I] [-op J] [-mode pre|post] [-d "T.f,.."|-] [-maxd N] -out FILE
+//	    the hand-written federations of harness/c14lab/fixtures.go: every operation x protected set,
+//	    all decision functions (2^n for n <= 6 coordinates, else maxd random), both authorizer modes
+//	c14 gen -seed S -n NCFG [-from I] [-p 0|1] [-op J] [-mode ..] [-d ..] [-maxd N] [-knobs K] -out FILE
+//	    generated federations (gvh/fedlab) with sentinel universes, two protected sets per configuration
+//	c14 probe -cfg example|iface|mut -p "T.f,.." -deny "T.f,.." -op 'operation' [-mode pre|post]
+//	    print plan, coordinates, requests and responses of one operation (diagnostics)
+//
+// Output lines (one S-expression each, read by ocaml/c14/driver.ml):
+//
+//	(c14 op   (id ..) ..decision-independent part: operation, protected set, un-authorized response, plan dump..)
+//	(c14 run  (id ..) (mode ..) (d ..) ..denied positions, response, reference, questions asked, requests, gates..)
+//	(c14 skip (id ..) (reason ..))   the un-authorized run already differs from the monolith (C01 territory)
+//
+// C14_DEBUG=1 prints every request / response of the runs.
 package main
 
 import (
